@@ -280,10 +280,13 @@ class AttributeAssignment:
         :return: the attribute of the variable.
         :raises NoneWrappedFieldError: If the attribute does not have a WrappedField.
         """
+        attr: Optional[Attribute] = None
         if self.owner_type is not None:
             attr = Attribute(self.variable, self.attr_name, self.owner_type)
-        else:
-            attr: Attribute = getattr(self.variable, self.attr_name)
+        if attr is None or not attr._wrapped_field_:
+            # the matched type does not declare the field (a mixin, a class outside the class diagram): the declared
+            # type of the variable may
+            attr = getattr(self.variable, self.attr_name)
         if not attr._wrapped_field_:
             raise NoneWrappedFieldError(self.variable._type_, self.attr_name)
         return attr
